@@ -48,3 +48,7 @@ func specETagConditionHolds(e *object.Entity, ifMatch *string) bool {
 	}
 	return *ifMatch == metadatastore.ETagWildcard || e.ETag == *ifMatch
 }
+
+// specNotAGeneratedVersion: the row is the null version (version id "null", or none at all on rows that predate
+// versioning support) - the only version that may be modified in place.
+func specNotAGeneratedVersion(v *string) bool { return v == nil || *v == "null" }
